@@ -265,6 +265,11 @@ class Mode(LogMixin):
     def _mode_started_callback(self, **kwargs) -> None:
         """Handle result of mode_<name>_started queue event."""
         del kwargs
+        if not self._active or self.stopping:
+            # a handler of mode_<name>_started already stopped us again. do not run mode_start() for a stopped mode.
+            self.start_event_kwargs = dict()
+            return
+
         self.mode_start(**self.start_event_kwargs)
 
         self.start_event_kwargs = dict()
